@@ -100,3 +100,70 @@ Definition gi_run (c : gicase) : N :=
 
 Definition gi_check (cs : list gicase) : list N :=
   fold_right (fun c acc => let k := gi_run c in if k =? 0 then acc else (gi_id c * 10000 + k) :: acc) [] cs.
+
+(* ---- a GC pass killed right after the copy of the n-th relocated record (C07 witnesses) ---- *)
+Definition gc_record_k (lc : l2cfg) (begin src : nat) (acc : gcst * option nat) (e : N * drec) : gcst * option nat :=
+  let '(st, cnt) := acc in
+  match cnt with
+  | None => acc                                   (* the process is dead *)
+  | Some n =>
+      match gc_record_copy (l_cfg lc) (forced_hash (l_forced lc)) begin src st e with
+      | (st1, None) => (st1, Some n)
+      | (st1, Some m) =>
+          match n with
+          | O => (st1, None)                       (* killed: the copy is on disk, tree and hints are not updated *)
+          | S k => (mkGC (gc_record_finish (l_cfg lc) (gc_b st1) m) (gc_dst st1) (gc_stat st1), Some k)
+          end
+      end
+  end.
+
+Definition gc_file_k (lc : l2cfg) (begin : nat) (acc : gcst * option nat) (src : nat) : gcst * option nat :=
+  let '(st, cnt) := acc in
+  match cnt with
+  | None => acc
+  | Some _ =>
+    let b := gc_b st in
+    if k_size (chunk_at b src) =? 0 then acc
+    else
+      let recs := k_disk (chunk_at b src) in
+      let st1 := mkGC (clear_hint_chunk b src) (gc_dst st) (gc_stat st) in
+      let '(st2, cnt2) := fold_left (gc_record_k lc begin src) recs (st1, cnt) in
+      match cnt2 with
+      | None => (st2, None)
+      | Some _ =>
+          let b2 := gc_b st2 in
+          let b3 := if Nat.eqb src (gc_dst st2) then b2 else clear_chunk b2 src in
+          let b4 := if Nat.leb (b_nextgc b3) (S src) then set_nextgc b3 (S src) else b3 in
+          (mkGC b4 (gc_dst st2) (gc_stat st2), cnt2)
+      end
+  end.
+
+(* the bucket at the moment of the kill (None: the pass finished before the n-th relocation) *)
+Definition gc_pass_killed (lc : l2cfg) (b : bucket) (begin end_ : nat) (n : nat) : option bucket :=
+  let cf := l_cfg lc in
+  let b1 := before_bucket cf b false in
+  let dst := pick_dst cf b1 begin begin in
+  let b2 := begin_gc_writing b1 dst begin in
+  let '(st, cnt) := fold_left (gc_file_k lc begin) (seq begin (S end_ - begin)) (mkGC b2 dst gc0, Some n) in
+  match cnt with None => Some (gc_b st) | Some _ => None end.
+
+(* a data file is bytes: a scan meets its records in offset order, whatever order the model's list has *)
+Definition norm_disk (b : bucket) : bucket :=
+  set_chunks b (map (fun k => mkChunk (k_exists k) (sort_off (k_disk k)) (k_fsize k) (k_wbuf k) (k_whead k) (k_size k) (k_rewriting k)) (b_chunks b)).
+
+Definition kill_gc_reopen (lc : l2cfg) (b : bucket) (begin end_ n : nat) : option openres :=
+  match gc_pass_killed lc b begin end_ n with
+  | Some bk => Some (bkt_open (l_cfg lc) (forced_hash (l_forced lc)) (dir_of (norm_disk bk) rm_none))
+  | None => None
+  end.
+
+(* killed after the first k source files have been processed and cleared, before anything else happens *)
+Definition gc_pass_killed_after_files (lc : l2cfg) (b : bucket) (begin k : nat) : bucket :=
+  let cf := l_cfg lc in
+  let b1 := before_bucket cf b false in
+  let dst := pick_dst cf b1 begin begin in
+  let b2 := begin_gc_writing b1 dst begin in
+  gc_b (fold_left (gc_file cf (forced_hash (l_forced lc)) begin) (seq begin k) (mkGC b2 dst gc0)).
+
+Definition kill_gc_files_reopen (lc : l2cfg) (b : bucket) (begin k : nat) : openres :=
+  bkt_open (l_cfg lc) (forced_hash (l_forced lc)) (dir_of (norm_disk (gc_pass_killed_after_files lc b begin k)) rm_none).
